@@ -30,9 +30,10 @@ import (
 // collectors, error log. ----
 
 func wconfigPossible(cfg *storeCfg) bool {
-	// in-memory blocks or index are fine; AC is excluded because the top-level
-	// decorator rewrites ActionResults (timestamp injection)
-	return !cfg.AC && !cfg.Mutable
+	// in-memory blocks or index are fine. The AC creator's top-level decorator
+	// injects a completion timestamp into results that lack one: the
+	// workload's ActionResults carry one, so they are stored unaltered.
+	return cfg.AC || !cfg.Mutable
 }
 
 func buildStoreConfig(c *sim.RunCtx, s *rt.Sched, cfg *storeCfg, m *media, proc int, seed int64) *storeEnv {
@@ -138,14 +139,22 @@ func buildStoreConfig(c *sim.RunCtx, s *rt.Sched, cfg *storeCfg, m *media, proc 
 		}}}
 		c.Count("probe_wconfig_existence_cache", 1)
 	}
-	info, err := configuration.NewBlobAccessFromConfiguration(e.group, top,
-		configuration.NewCASBlobAccessCreator(nil, 1<<20, nil))
+	var creator configuration.BlobAccessCreator = configuration.NewCASBlobAccessCreator(nil, 1<<20, nil)
+	storageType := "cas"
+	if cfg.AC {
+		creator = configuration.NewACBlobAccessCreator(nil, nil, 1<<20)
+		storageType = "ac"
+		c.Count("probe_wconfig_action_cache", 1)
+	}
+	info, err := configuration.NewBlobAccessFromConfiguration(e.group, top, creator)
 	me.Proc = prevProc
 	if err != nil {
 		e.restore()
 		panic(sim.HarnessError{Msg: fmt.Sprintf("W-config: NewBlobAccessFromConfiguration failed: %v (cfg %s)", err, cfg)})
 	}
-	if !cfg.Hier && info.DigestKeyFormat != digest.KeyWithoutInstance {
+	if cfg.AC && info.DigestKeyFormat != digest.KeyWithInstance {
+		c.Fail("wrong-key-format-announced", "the configured Action Cache store announces key format %v: instance names would be ignored by whatever is keyed by it", info.DigestKeyFormat)
+	} else if !cfg.AC && !cfg.Hier && !cfg.Demux && info.DigestKeyFormat != digest.KeyWithoutInstance {
 		panic(sim.HarnessError{Msg: "W-config: unexpected key format"})
 	}
 	e.ba = info.BlobAccess
@@ -153,8 +162,8 @@ func buildStoreConfig(c *sim.RunCtx, s *rt.Sched, cfg *storeCfg, m *media, proc 
 		// the allocator's collectors: blocks re-attached at start-up are
 		// counted as allocations by the code, so the value right after
 		// construction is the base
-		e.allocCounter = existingCounter("block_device_backed_block_allocator_allocations_total", "Number of times blocks managed by BlockDeviceBackedBlockAllocator were allocated", "storage_type", "cas")
-		e.releaseCounter = existingCounter("block_device_backed_block_allocator_releases_total", "Number of times blocks managed by BlockDeviceBackedBlockAllocator were released", "storage_type", "cas")
+		e.allocCounter = existingCounter("block_device_backed_block_allocator_allocations_total", "Number of times blocks managed by BlockDeviceBackedBlockAllocator were allocated", "storage_type", storageType)
+		e.releaseCounter = existingCounter("block_device_backed_block_allocator_releases_total", "Number of times blocks managed by BlockDeviceBackedBlockAllocator were released", "storage_type", storageType)
 		if e.allocCounter == nil || e.releaseCounter == nil {
 			panic(sim.HarnessError{Msg: "W-config: allocator collectors not found"})
 		}
